@@ -221,6 +221,13 @@ func (sps *ServerPoolSpec) Validate() error {
 		return fmt.Errorf(msgFmt, serversGotWeight, len(sps.Servers))
 	}
 
+	// One name can not refer to both a retry and a circuit breaker policy,
+	// such a pool could never get its policies injected.
+	if sps.RetryPolicy != "" && sps.RetryPolicy == sps.CircuitBreakerPolicy {
+		msgFmt := "retryPolicy and circuitBreakerPolicy refer to the same policy '%s'"
+		return fmt.Errorf(msgFmt, sps.RetryPolicy)
+	}
+
 	return nil
 }
 
